@@ -32,6 +32,8 @@ from ..common import Check, log
 from ..models import ustring as U
 
 ALPHA = [0x61, 0xE9, 0x20AC, 0x1F600]
+ALT = [0x62, 0xF1, 0x2030, 0x1F601]             # same-width alternates: make in-place (same width) writes change the content
+AL8 = ALPHA + ALT
 SRC = [0x1F600, 0x61, 0x20AC, 0xE9]            # source string of string-copy! from another string
 PAD_L = [0x20AC, 0x61]                          # "longer string" = PAD_L + content + PAD_R
 PAD_R = [0xE9, 0x1F600]
@@ -61,7 +63,8 @@ PRELUDE = r"""
 (import (scheme base) (scheme write) (scheme file) (chibi)
         (only (chibi io) string-offset string->utf8! utf8->string!)
         (only (chibi ast) immutable? immutable-string))
-(define ALPHA (vector (integer->char 97) (integer->char 233) (integer->char 8364) (integer->char 128512)))
+(define ALPHA (vector (integer->char 97) (integer->char 233) (integer->char 8364) (integer->char 128512)
+                      (integer->char 98) (integer->char 241) (integer->char 8240) (integer->char 128513)))
 (define (alpha i) (vector-ref ALPHA i))
 (define (alpha-string i) (if (= i 4) "" (string (alpha i))))
 (define SRC (list 128512 97 8364 233))
@@ -306,6 +309,10 @@ def ops_for(cps, lmax):
     for i in range(n):
         for ci in range(4):
             ops.append((1, i, ci, 0))
+        if cps[i] in ALPHA:
+            ops.append((1, i, 4 + ALPHA.index(cps[i]), 0))      # same width, different character: in-place write
+    for ci in range(4, 8):
+        ops.append((2, ci, 0, 0))
     for ci in range(4):
         ops.append((2, ci, 0, 0))
         for st in range(n + 1):
@@ -364,6 +371,8 @@ def ops_for(cps, lmax):
     for i in range(n):
         for ci in range(4):
             ops.append((60, i, ci, 0))
+        if cps[i] in ALPHA:
+            ops.append((60, i, 4 + ALPHA.index(cps[i]), 0))
     ops.append((61, 0, 0, 0))
     ops.append((62, 0, 0, 0))
     for i in range(n):
@@ -405,13 +414,13 @@ def model_step(cps, cls, op):
     n = len(s)
     if k in MUTATORS:
         if k == 1:
-            st, new = a, [ALPHA[b]]
+            st, new = a, [AL8[b]]
         elif k == 2:
-            st, new = 0, [ALPHA[a]] * n
+            st, new = 0, [AL8[a]] * n
         elif k == 3:
-            st, new = b, [ALPHA[a]] * (n - b)
+            st, new = b, [AL8[a]] * (n - b)
         elif k == 4:
-            st, new = b, [ALPHA[a]] * (c - b)
+            st, new = b, [AL8[a]] * (c - b)
         elif k == 5:
             st, new = a, U.sub(s, 0, n)
         elif k == 6:
@@ -419,7 +428,7 @@ def model_step(cps, cls, op):
         elif k == 7:
             st, new = a, U.sub(s, b, c)
         elif k == 60:
-            st, new = a, [ALPHA[b]]
+            st, new = a, [AL8[b]]
         else:
             st, new = a, U.sub(SRC, b, c)
         post = U.copy_into(s, st, new)
@@ -603,7 +612,7 @@ def render_init(route, cps):
 
 def render_op(op):
     k, a, b, c = op
-    al = lambda i: sch_char(ALPHA[i])
+    al = lambda i: sch_char(AL8[i])
     als = lambda i: '""' if i == 4 else "(string %s)" % sch_char(ALPHA[i])
     port = lambda body: "(set! s (let ((o (open-output-string))) %s (get-output-string o)))" % body
     skip = "(do ((i 0 (+ i 1))) ((= i %d)) (read-char p))" % a
@@ -716,6 +725,21 @@ def nums(txt):
 _G = {}     # per-level globals inherited by the forked workers
 
 
+def run_driver(variant, path, cwd, env, timeout=1500):
+    """evalbatch, retried when the very first form (the import) fails: that only happens while somebody rebuilds
+    build/<variant> under our feet (the shared libraries of the modules disappear for a moment)."""
+    for attempt in range(8):
+        try:
+            r = common.evalbatch(variant, [path], env=env, timeout=timeout, cwd=cwd)
+        except OSError:
+            r = None
+        if r is not None and not re.search(r"^;;EXC 0 ", r.out, re.M) and "cannot open shared object" not in r.out:
+            return r
+        time.sleep(5 + 5 * attempt)
+        build.build_variant(variant)
+    return r if r is not None else common.Result(-1, "evalbatch could not be started")
+
+
 def model_pre(route, cps, prefix):
     s, cls = list(cps), ROUTES[route][1]
     lit = ROUTES[route][2]
@@ -758,7 +782,7 @@ def run_job(arg):
         with open(path, "w", encoding="utf-8") as fh:
             fh.write(job_text(full, contents_tab, {i: (starts.get(i, 0) if i in pending else None) for i in range(len(full))}))
         # ASan in recover mode: a report does not end the process (it is printed once per faulting pc per process)
-        r = common.evalbatch(variant, [path], env={"VERIF_POISON": "1", "ASAN_OPTIONS": asan_env}, timeout=1500, cwd=d)
+        r = run_driver(variant, path, d, {"VERIF_POISON": "1", "ASAN_OPTIONS": asan_env})
         res["runs"] += 1
         lines = r.out.split("\n")
         cur = None
@@ -962,7 +986,11 @@ def check_transition(res, st, hs, opi, line, contents_tab, lmax, known, asan_rep
         res["sample"] = (route, ci, tuple(prefix) + (op,))
     # successor
     key = state_key(post, ps, pcls)
-    if key not in known:
+    if any(ch not in ALPHA for ch in post):
+        # symmetry reduction: a state holding a same-width alternate character has the byte layout of the state with the
+        # content-alphabet character in its place; it is checked here but not expanded further
+        res["pruned"] = res.get("pruned", 0) + 1
+    elif key not in known:
         h = (route, ci, tuple(prefix) + (op,))
         old = res["new"].get(key)
         if old is None or hkey(h) < hkey(old):
@@ -1031,7 +1059,7 @@ def scalar_job(arg):
     path = os.path.join(d, "scalar.scm")
     with open(path, "w", encoding="utf-8") as fh:
         fh.write(txt)
-    r = common.evalbatch(variant, [path], env={"VERIF_POISON": "1"}, timeout=1500, cwd=d)
+    r = run_driver(variant, path, d, {"VERIF_POISON": "1"})
     shutil.rmtree(d, ignore_errors=True)
     got = {}
     badcps = []
@@ -1065,7 +1093,7 @@ def cmp3_job(variant):
     path = os.path.join(d, "cmp3.scm")
     with open(path, "w", encoding="utf-8") as fh:
         fh.write(txt)
-    r = common.evalbatch(variant, [path], env={"VERIF_POISON": "1"}, timeout=600, cwd=d)
+    r = run_driver(variant, path, d, {"VERIF_POISON": "1"}, timeout=600)
     shutil.rmtree(d, ignore_errors=True)
     return r
 
@@ -1127,7 +1155,7 @@ def dispatch(job):
 
 
 def main(tier, replay_path=None):
-    chk = Check("C12", "model_checking", tier, quick_s=150, thorough_s=1140)
+    chk = Check("C12", "model_checking", tier, quick_s=170, thorough_s=1150)
     chk.clean_replays()
     U.selftest()
     quick = chk.quick
@@ -1152,6 +1180,9 @@ def main(tier, replay_path=None):
         "chibi is built without SEXP_USE_STRING_REF_CACHE / STRING_INDEX_TABLE so strings carry no other hidden state",
         "string-append results longer than %d characters are not generated (bound of the exploration)" % lmax,
         "out-of-range indices and byte offsets inside a character are 'an error' in R7RS and are not generated",
+        "symmetry reduction: characters written come from the content alphabet plus one same-width alternate per width "
+        "(b, U+F1, U+2030, U+1F601) so that in-place writes change the content; successor states that hold an alternate are "
+        "checked but not expanded (they have the byte layout of the state with the content-alphabet character in that place)",
         "mutation of symbol->string results is 'an error' in R7RS: a raise that leaves the string unchanged is accepted",
         "string<? etc: only R7RS 6.7 requirements are asserted (string=? is equality, trichotomy, <=/>= duals, transitivity); "
         "agreement with code point order is recorded, not required",
@@ -1331,6 +1362,7 @@ def main(tier, replay_path=None):
                                       rep["text"][:700]),
                                   replay_text(hh, contents_tab, "(no AddressSanitizer report)") if op else None)
                 lost_total += res["lost"]
+                chk.cov["successors_not_expanded_symmetric"] = chk.cov.get("successors_not_expanded_symmetric", 0) + res.get("pruned", 0)
                 for what, tail, at in res["crashes"]:
                     if at is None:
                         chk.violation({"op": "driver", "crash": True, "what": what}, "driver process problem: %s: %s" % (what, tail[-400:]))
@@ -1406,7 +1438,7 @@ def rerun_alone(h, contents_tab, lmax):
         with open(path, "w", encoding="utf-8") as fh:
             fh.write(job_text([(route, ci, prefix, [op])], contents_tab))
         aenv = build.env_for("asan")["ASAN_OPTIONS"].replace("halt_on_error=1", "halt_on_error=0")
-        r = common.evalbatch("asan", [path], env={"VERIF_POISON": "1", "ASAN_OPTIONS": aenv}, timeout=300, cwd=d)
+        r = run_driver("asan", path, d, {"VERIF_POISON": "1", "ASAN_OPTIONS": aenv}, timeout=300)
         res = {"transitions": 0, "states": [], "viol": [], "new": {}, "outcomes": {}, "crashes": [], "nontrivial": 0,
                "cmp_other_order": 0, "sample": None, "excluded_sym_error": 0}
         hs = None
